@@ -1064,6 +1064,12 @@ class CrystalMap:
             coordinates = self._coordinates
         else:
             coordinates = self._all_coordinates
+        # Slices index into the full map, so coordinates must be given
+        # relative to the origin of the full map
+        coordinates = {
+            k: None if v is None else v - np.min(self._all_coordinates[k])
+            for k, v in coordinates.items()
+        }
         slices = _data_slices_from_coordinates(coordinates, self._step_sizes)
         return slices
 
